@@ -8,8 +8,7 @@ an eligible helper is replaced by the helper's own blocks:
                                           ==>     ...   helper's blocks, locals and block numbers shifted
                                                   ret': dest = move _0'; goto t
 
-Eligible: a non-coroutine function of the same crate, defined in the same file as the root body, not public (`pub(crate)`/private),
-not recursive, whose normalised path is not in `keep` (the callee names the rule itself anchors on) — or, with `also`, any function
+Eligible: a non-coroutine function of the same crate that is not public (private, `pub(crate)`, `pub(super)`; any file), not recursive, whose normalised path is not in `keep` (the callee names the rule itself anchors on) — or, with `also`, any function
 whose path the predicate accepts. Depth-bounded (default 4 levels). Unwind edges are renumbered but not followed by Body.succ().
 
 The inlined callee's closures stay separate bodies; `Body.extra_roots` lists the helper items that were inlined so that rules that look
@@ -84,7 +83,9 @@ def eligible(fb, root, cb, keep, also):
         return False
     if also is not None and also(cb):
         return True
-    return cb.file == root.file and cb.raw.get('vis') != 'Public'
+    # a helper is a function of the crate that is not part of its public API: defined in the same file, or in another module with a
+    # restricted visibility (`pub(crate)` / `pub(super)`) — logic that was moved next to the data it works on is still the same logic
+    return cb.raw.get('vis') != 'Public'
 
 
 def _generic_map(t):
